@@ -555,8 +555,11 @@ def run_diagram_rule(ctx: Ctx, res: Result) -> None:
     problems: list[tuple[str, str, str]] = []
     covered_by: dict[str, S.Event] = {}
     for tag in (START_TAG, END_TAG):
-        # a search "covers" a tag when its result depends on the tag (needle, or a range / receiver computed from a search for it)
-        cands = [ev for ev in tagged if tag in _const_texts(ev.result.deps)]
+        # the searches *for* the tag (the tag is part of the needle / pattern).  A later search whose range or receiver was
+        # computed from such a search says something about the tag only through the constraints the symbolic run attaches
+        # to it (partition of an empty rest, a range clamped to empty) - a result that merely depends on it proves nothing:
+        # `text.rfind(start, 0, text.rfind(end) - 1)` searches an end-relative range when the end tag is absent
+        cands = [ev for ev in tagged if tag in _const_texts(ev.result.meta[0] if ev.result.meta else ev.result.deps)]
         good = [ev for ev in cands if verdicts[id(ev)][0]]
         if good:
             covered_by[tag] = good[0]
@@ -585,6 +588,47 @@ def run_diagram_rule(ctx: Ctx, res: Result) -> None:
         evs = list({id(e_): e_ for e_ in covered_by.values()}.values())
         raised = sorted({x.exc.split(".")[-1] for x in rejections(sym) for e_ in evs if e_.result.kind != "index" and sat_path(x.path, absent(e_))})
         res.add("C13.R2", construct, True, f"a diagram without {START_TAG} / {END_TAG} ({', '.join('`' + norm(e_.node, 40) + '`' for e_ in evs)} finds nothing) raises {', '.join(raised) or 'the error of the search itself'} and reaches no verdict", where(aa, aa.node), kind="dominance")
+    _tag_order(sym, res, dr, aa, tagged, bad)
+
+
+def _tag_order(sym: S.Sym, res: Result, dr: ClassInfo, aa: FuncInfo, tagged: list[S.Event], bad: list[S.Outcome]) -> None:
+    """A file in which @enduml only occurs before @startuml has no tagged body.  Pattern / partition / bounded searches order the
+    tags by construction; two *independent* position searches over the same text (neither range depends on the other result)
+    whose positions cut the body out of the text must be related to each other (a comparison, a test of the slice, a further
+    search involving both tags) on every path to a verdict."""
+    construct = f"{dr.module.relpath}::DiagramRule.assert_applies::start tag before end tag"
+
+    def needle(ev: S.Event) -> str:
+        return _const_texts(ev.result.meta[0]) if ev.result.meta else ""
+
+    pos = [ev for ev in tagged if ev.result.kind in ("find", "index") and ev.name in S.STR_SEARCH and ev.recv is not None]
+    starts = [ev for ev in pos if START_TAG in needle(ev) and END_TAG not in _const_texts(ev.result.deps)]
+    ends = [ev for ev in pos if END_TAG in needle(ev) and START_TAG not in _const_texts(ev.result.deps)]
+    slices = [ev for ev in sym.events if ev.kind == "slice" and ev.recv is not None and len(ev.args) == 2 and ev.args[0] is not None and ev.args[1] is not None]
+    for a in starts:
+        for b in ends:
+            if key(a.recv) != key(b.recv):
+                continue
+            cut = [sl for sl in slices if key(sl.recv) == key(a.recv) and a.result.key in key(sl.args[0]) and b.result.key in key(sl.args[1])]
+            for sl in cut:
+                for o in bad:
+                    if not (must(o.path, sl.path) and must(o.path, a.path) and must(o.path, b.path)):
+                        continue
+                    related = any(a.result.key in n and b.result.key in n for c in o.path for n in atoms_of(c))
+                    related = related or any(sl.result.key in n for c in o.path for n in atoms_of(c))
+                    related = related or any(ev is not a and ev is not b and START_TAG in _const_texts(ev.result.deps) and END_TAG in _const_texts(ev.result.deps) and must(o.path, ev.path) for ev in tagged)
+                    if related:
+                        continue
+                    res.add(
+                        "C13.R2",
+                        construct,
+                        False,
+                        f"`{norm(a.node, 50)}` and `{norm(b.node, 50)}` in {a.ctx.qualname} look for the two tags independently of each other and `{norm(sl.node, 60)}` cuts the text between the two positions, but nothing on the way to {describe_outcome(o)} relates the positions: a file whose only {END_TAG} precedes {START_TAG} (no tagged body) yields an empty diagram and a verdict instead of a parsing error",
+                        f"{sl.ctx.relpath}:{getattr(sl.node, 'lineno', 0)}",
+                        kind="dominance",
+                    )
+                    return
+    res.add("C13.R2", construct, True, "the tag positions are ordered by construction (one pattern / a search bounded by the other position) or compared before the body is used", where(aa, aa.node), nontrivial=False, kind="dominance")
 
 
 # --------------------------------------------------------------------------- R2: entry point options
@@ -798,6 +842,13 @@ class VerdictTaint:
                     tys = [(repo.resolve_name(f.module, e) or dotted(e)).split(".")[-1] for e in (n.type.elts if isinstance(n.type, ast.Tuple) else [n.type])]
                     if "AssertionError" in tys:
                         env[n.name] = frozenset({"AE"})
+            if f.name == "__exit__" and f.cls is not None and f.outer is None and len(f.param_names) >= 3:
+                # a context manager of the repository that swallows AssertionError: the pending exception it is handed
+                # is a caught verdict, exactly like the name bound by `except AssertionError as e`
+                sw = S.exit_suppresses(repo, f.cls) or []
+                if {"AssertionError", "<bare>", "Exception", "BaseException"} & set(sw):
+                    for prm in f.param_names[1:3]:
+                        env[prm] = env.get(prm, frozenset()) | frozenset({"AE"})
             self.names[f.fq] = env
         rounds = 0
         while self.changed and rounds < 12:
@@ -824,10 +875,32 @@ class VerdictTaint:
             elif isinstance(n, ast.Attribute) and isinstance(n.ctx, ast.Load) and isinstance(n.value, ast.Name) and n.value.id in ("self", "cls") and f.cls is not None:
                 for c in self.repo.mro(f.cls):
                     out |= self.fields.get((c.fq, n.attr), frozenset())
+            elif isinstance(n, ast.Attribute) and isinstance(n.ctx, ast.Load) and self.fields:
+                # a field of another object of the repository (`log.messages` with `log = _ViolationLog()`)
+                for cfq in self._classes_of(f, n.value):
+                    out |= self.fields.get((cfq, n.attr), frozenset())
             elif isinstance(n, ast.Call):
                 for c in self.callees(f, n):
                     out |= self.rets.get(c.fq, frozenset())
         return out
+
+    def _classes_of(self, f: FuncInfo, e: ast.expr) -> list[str]:
+        """Repository classes (with their ancestors) an expression may be an instance of, by static typing."""
+        k = id(e)
+        cache = self.__dict__.setdefault("_cls_cache", {})
+        if k not in cache:
+            out: list[str] = []
+            if not isinstance(f.node, ast.Lambda) or f.outer is not None:
+                try:
+                    t = self.T.expr(f, e)
+                except Exception:  # noqa: BLE001
+                    t = ("unknown",)
+                for m in members(t):
+                    ci = self.repo.classes.get(m[1]) if m[0] == "cls" else None
+                    if ci is not None:
+                        out += [c.fq for c in self.repo.mro(ci) if c.fq not in out]
+            cache[k] = out
+        return cache[k]
 
     def callees(self, f: FuncInfo, n: ast.Call) -> list[FuncInfo]:
         k = id(n)
@@ -915,18 +988,49 @@ def assert_statements(repo: Repo) -> list[tuple[FuncInfo | None, ast.Assert, str
     return out
 
 
-def handlers(repo: Repo) -> list[tuple[FuncInfo, ast.ExceptHandler]]:
+class Catch:
+    """One place where exceptions raised by a block of statements can be swallowed: an `except` clause, or a `with` block whose
+    context manager suppresses them (contextlib.suppress, a repository class whose __exit__ can return a truthy value)."""
+
+    def __init__(self, f: FuncInfo, node: ast.AST, types: list[str], body: list[ast.stmt], named: bool, converts: bool, shown: str) -> None:
+        self.f, self.node, self.types, self.body, self.named, self.converts, self.shown = f, node, types, body, named, converts, shown
+
+    @property
+    def first(self) -> str:
+        return norm(self.body[0], 60) if self.body else ""
+
+
+def handlers(repo: Repo) -> list[Catch]:
+    from core.cfg import exit_kinds
+
+    T = types_of(repo)
     out = []
     for f in repo.all_functions():
         for n in own_nodes(f.node):
             if isinstance(n, ast.ExceptHandler):
-                out.append((f, n))
+                t = parent(n)
+                types_ = _handler_types(repo, f, n)
+                converts = exit_kinds(n.body) == {"raise"} and not any(isinstance(r, ast.Raise) and r.exc is not None and is_assertion_error(repo, exception_class_name(repo, f, r.exc)) for b in n.body for r in ast.walk(b))
+                out.append(Catch(f, n, types_, t.body if isinstance(t, ast.Try) else [], n.name is not None, converts, f"`except {', '.join(types_)}`"))
+            elif isinstance(n, (ast.With, ast.AsyncWith)):
+                for it in n.items:
+                    types_ = S.suppress_call_types(repo, f, it.context_expr)
+                    if types_ is not None:
+                        if types_:
+                            out.append(Catch(f, n, types_, n.body, False, False, f"`with {norm(it.context_expr, 50)}`"))
+                        continue
+                    try:
+                        t = T.expr(f, it.context_expr)
+                    except Exception:  # noqa: BLE001
+                        continue
+                    for m in members(t):
+                        ci = repo.classes.get(m[1]) if m[0] == "cls" else None
+                        sw = S.exit_suppresses(repo, ci) if ci is not None else None
+                        if sw:
+                            ex = repo.lookup_method(ci, "__exit__")
+                            named = any(isinstance(x, ast.Name) and isinstance(x.ctx, ast.Load) and x.id in ex.param_names[1:3] for x in own_nodes(ex.node))
+                            out.append(Catch(f, n, sw, n.body, named, False, f"`with {norm(it.context_expr, 40)}` ({ci.name}.__exit__ swallows {', '.join(sw)})"))
     return out
-
-
-def _try_key(h: ast.ExceptHandler) -> str:
-    t = parent(h)
-    return norm(t.body[0], 60) if isinstance(t, ast.Try) and t.body else ""
 
 
 def _handler_types(repo: Repo, f: FuncInfo, h: ast.ExceptHandler) -> list[str]:
@@ -939,14 +1043,12 @@ def assertion_raises(repo: Repo) -> list[tuple[FuncInfo, ast.Raise]]:
     return [(f, r) for f in repo.all_functions() for r in own_nodes(f.node) if isinstance(r, ast.Raise) and r.exc is not None and is_assertion_error(repo, exception_class_name(repo, f, r.exc))]
 
 
-def handler_verdict(repo: Repo, taint: VerdictTaint, f: FuncInfo, h: ast.ExceptHandler) -> tuple[bool, str]:
+def handler_verdict(repo: Repo, taint: VerdictTaint, h: Catch) -> tuple[bool, str]:
     T = types_of(repo)
-    types_ = _handler_types(repo, f, h)
-    t = parent(h)
-    body = t.body if isinstance(t, ast.Try) else []
+    f, types_, shown = h.f, h.types, h.shown
     repo_calls = []
     graph_access = []
-    for s in body:
+    for s in h.body:
         for c in ast.walk(s):
             if isinstance(c, ast.Call):
                 try:
@@ -959,25 +1061,25 @@ def handler_verdict(repo: Repo, taint: VerdictTaint, f: FuncInfo, h: ast.ExceptH
                     graph_access.append(norm(c, 50))
             if isinstance(c, ast.Subscript) and "graph" in norm(c.value).lower():
                 graph_access.append(norm(c, 50))
-    from core.cfg import exit_kinds
-
-    converts = exit_kinds(h.body) == {"raise"} and not any(isinstance(r, ast.Raise) and r.exc is not None and is_assertion_error(repo, exception_class_name(repo, f, r.exc)) for b in h.body for r in ast.walk(b))
-    if converts and "AssertionError" not in types_:
-        return True, f"`except {', '.join(types_)}` always re-raises (as a non-AssertionError exception): nothing is swallowed"
+    if h.converts and "AssertionError" not in types_:
+        return True, f"{shown} always re-raises (as a non-AssertionError exception): nothing is swallowed"
     if any(x in ("<bare>", "Exception", "BaseException") for x in types_):
-        return False, f"broad handler `except {', '.join(types_)}` in {f.qualname}: configuration and lookup errors raised below it are swallowed or turned into something else"
+        return False, f"broad handler {shown} in {f.qualname}: configuration and lookup errors raised below it are swallowed or turned into something else"
     if "AssertionError" in types_:
         # legitimate only where the caught verdict is passed on: some AssertionError raise of the same class / function depends on it
         scope = [(g, r) for g, r in assertion_raises(repo) if g is f or (f.cls is not None and g.cls is f.cls)]
         passed_on = [(g, r) for g, r in scope if "AE" in (taint.expr(g, r.exc) | frozenset().union(*[taint.expr(g, e) for e, _p in conds(g, r)] or [frozenset()]))]
-        if not passed_on or h.name is None:
-            return False, f"{f.qualname} catches AssertionError without passing the caught verdict on in an AssertionError of its own: a violated rule can be turned into a pass"
-        return True, f"the caught AssertionError is passed on by `{norm(passed_on[0][1], 60)}` in {passed_on[0][0].qualname} (aggregation, see C07.R2)"
+        if not passed_on or not h.named:
+            return False, f"{f.qualname} catches AssertionError ({shown}) without passing the caught verdict on in an AssertionError of its own: a violated rule can be turned into a pass"
+        return True, f"the AssertionError caught by {shown} is passed on by `{norm(passed_on[0][1], 60)}` in {passed_on[0][0].qualname} (aggregation, see C07.R2)"
     if any(x in LOOKUP_ERRORS for x in types_):
         if repo_calls or graph_access:
-            return False, f"`except {', '.join(types_)}` in {f.qualname} wraps {', '.join((graph_access + repo_calls)[:3])}: the lookup error that rejects an unknown module name is swallowed and a verdict is produced"
-        return True, f"`except {', '.join(types_)}` wraps only builtin container operations ({_try_key(h)})"
-    return True, f"`except {', '.join(types_)}` does not interfere with configuration or lookup errors"
+            return False, f"{shown} in {f.qualname} wraps {', '.join((graph_access + repo_calls)[:3])}: the lookup error that rejects an unknown module name is swallowed and a verdict is produced"
+        return True, f"{shown} wraps only builtin container operations ({h.first})"
+    others = [x for x in types_ if not is_assertion_error(repo, x)]
+    if isinstance(h.node, (ast.With, ast.AsyncWith)) and (repo_calls or graph_access):
+        return False, f"{shown} in {f.qualname} wraps {', '.join((graph_access + repo_calls)[:3])} and silently drops {', '.join(others)}: a configuration error raised in the block no longer reaches the caller"
+    return True, f"{shown} does not interfere with configuration or lookup errors"
 
 
 def run_r3_r4(ctx: Ctx, res: Result) -> None:
@@ -1024,16 +1126,21 @@ def run_r3_r4(ctx: Ctx, res: Result) -> None:
     try:
         (tmp / "src" / "pytestarch").mkdir(parents=True)
         shutil.copy(fx, tmp / "src" / "pytestarch" / "fixture_raises.py")
+        shutil.copy(fx.with_name("suppressing_managers.py"), tmp / "src" / "pytestarch" / "fixture_managers.py")
         frepo = Repo(tmp)
         ftaint = VerdictTaint(frepo)
-        if len(assert_statements(frepo)) != 1 or len([h for h in handlers(frepo) if handler_verdict(frepo, ftaint, *h)[0] is False]) != 3:
+        offending = [h for h in handlers(frepo) if handler_verdict(frepo, ftaint, h)[0] is False]
+        if len(assert_statements(frepo)) != 1 or sorted(h.f.name for h in offending if isinstance(h.node, ast.ExceptHandler)) != ["check", "swallow", "verdict_to_pass"]:
             raise AnalysisError("C13 fixture: assert / handler detectors do not recognise engine/fixtures/raises_and_handlers.py")
+        if sorted(h.f.name for h in offending if not isinstance(h.node, ast.ExceptHandler)) != ["suppress_everything", "swallow_all", "verdict_dropped"] or len([h for h in handlers(frepo) if not isinstance(h.node, ast.ExceptHandler)]) != 4:
+            raise AnalysisError("C13 fixture: the detector of suppressing context managers does not recognise engine/fixtures/suppressing_managers.py")
         res.add("C13.R4", "fixture::engine/fixtures/raises_and_handlers.py", True, "positive fixture recognised (1 assert, 3 offending handlers)", nontrivial=False)
+        res.add("C13.R4", "fixture::engine/fixtures/suppressing_managers.py", True, "positive fixture recognised (3 offending `with` blocks: swallowing __exit__, suppress(Exception), suppress(AssertionError); 1 harmless suppress(KeyError); a non-suppressing manager is no handler)", nontrivial=False)
     finally:
         shutil.rmtree(tmp, ignore_errors=True)
-    for f, h in handlers(repo):
-        ok, detail = handler_verdict(repo, taint, f, h)
-        res.add("C13.R4", repo.key(f, h) + f" [{_try_key(h)}]", ok, detail, where(f, h), kind="effect")
+    for h in handlers(repo):
+        ok, detail = handler_verdict(repo, taint, h)
+        res.add("C13.R4", repo.key(h.f, h.node) + f" [{h.first}]", ok, detail, where(h.f, h.node), kind="effect")
 
 
 def run(repo: Repo) -> Result:
@@ -1045,11 +1152,13 @@ def run(repo: Repo) -> Result:
         "raise is consistent with the invalid specification: (R7) Rule without verb, import type, subject or object; (R1) 'anything' with "
         "a verb other than should_not, and no rewrite of the configuration hides a value from a later check; (R5) should_not with another "
         "verb (requirement class and pipeline); (R2) module lists before a side was selected, LayerRule methods before layers_that / "
-        "based_on, DiagramRule without file or tags, invalid option combinations and module_path outside root_path of "
+        "based_on, DiagramRule without file or tags (each tag's own search must reject its absence; two independently found tag positions "
+        "must be related before the text between them is used), invalid option combinations and module_path outside root_path of "
         "get_evaluable_architecture; (R6) every module filter handed to a search reaches networkx' raising successors/predecessors on "
         "every path, every requested layer name is a raising subscript; (R3) AssertionError is raised only from evaluation results or "
         "caught verdicts, no assert statement; (R4) no broad handler, no lookup-error handler around graph accesses or repo calls, caught "
-        "AssertionErrors are passed on."
+        "AssertionErrors are passed on - `with` blocks whose context manager swallows exceptions (contextlib.suppress, a repository class "
+        "whose __exit__ can return a truthy value) count as handlers, in the symbolic runs as well."
     )
     res.not_decided = "arbitrary call sequences: each obligation is about one call of one public method on an arbitrary object state; histories that defeat a check through state the check does not read are out of scope (see C16.R2). Regex filters: C11.R2."
     res.trusted_base = [
